@@ -178,7 +178,7 @@ func (g *gen) reg(depth int) *Reg {
 		rg.Filter = 4
 	}
 	if g.pf.Panics && r.IntN(3) == 0 {
-		rg.PanicKind = 1 + r.IntN(7)
+		rg.PanicKind = 1 + r.IntN(8)
 		if r.IntN(2) == 0 {
 			rg.PanicMod = 2 + uint64(r.IntN(2))
 			rg.PanicRem = uint64(r.IntN(int(rg.PanicMod)))
